@@ -59,6 +59,15 @@ fixed("C18","f02fd32","pin:load_then_flag_test","load() / store() left stale fla
 fixed("C18","d6d7fdd","pin:asm_then_flag_test","asm() left stale flag knowledge: 'l = a; asm(\"LDA #1\", 2); if (l == 0)' tested the flags of the inline code")
 fixed("C15","dd8ce8b","pin:nested_if_else_chain","the grammar gave an if any number of else clauses and kept the first: 'if (a) if (b) S1 else S2 else S3' dropped S3")
 
+fixed("C05","968a87e","pin:parameter_rank","a prototype followed by its definition re-declared the parameter cells without a fresh rank: variable order and addresses followed hash-map order (ef0f4a6: same for the DUMMY cell)")
+fixed("C09","74d08d1","pin:sibling_call_literals","'g(\"aa\") + g(\"bb\")': literals of sibling sub-expressions were both named cctmpN, the second replaced the first")
+fixed("C06","1c3e2b9","C06:type_too_complex_location","'short *p;' (global, local, parameter) was reported at line 1 of the file instead of its own line")
+fixed("C16","c0b2581","pin:if_continue_in_switch","'switch (a) { case 1: if (a) continue; }' outside a loop reached unreachable!() in check_branches")
+fixed("C16","1052080","pin:banked_call_without_rom_select","a call into another bank under 3E without a declared ROM_SELECT unwrapped None in get_variable()")
+fixed("C13","acc7223","C13:store_to_array_name","'tab = 5;' / 'tab++;' on an array name emitted STA #<tab / INC #<tab")
+fixed("C13","2fde23b","pin:goto_undefined_label","'goto nowhere;' was accepted and emitted JMP .nowhere with no such label")
+fixed("C13","ef0c9a9","pin:continue_in_switch_in_dowhile","'do { switch (a) { case 1: continue; } } while (c);' jumped to .dowhileconditionN, a label that was never emitted")
+
 # ---------------- recorded, not repaired (each has a pinned witness in harness/src/pins.rs and a
 # generator rule that keeps the random pools out of the family)
 C01=[
@@ -103,8 +112,6 @@ known("C08","pin:paste_with_non_parameter","'#define M(a) a##_t': the template '
 known("C10","pin:calc_nested_ternary_middle","the constant calculator encodes ?: as two binary operators with a magic 'not taken' value: a bare ?: as middle operand ('0 ? 1 ? 5 : 6 : 7') yields 6 instead of 7")
 known("C11","pin:macro_call_across_lines","a function-like macro call whose '(' or arguments continue on the next line is never expanded (macros are matched line by line)")
 known("C11","pin:blank_after_hash","'# define N 3' (white space or a comment between '#' and the directive name) is an unrecognised directive")
-known("C13","pin:continue_in_switch_in_dowhile","'do { switch (a) { case 1: continue; } } while (c);' jumps to .dowhileconditionN, a label that is never emitted")
-known("C13","pin:goto_undefined_label","'goto nowhere;' is accepted and emits JMP .nowhere with no such label")
 
 json.dump({"comment":"generated by tools/mk_known.py; checks read it, never write it","findings":K}, open('/verif/known_findings.json','w'), indent=1)
 print(len(K),"entries")
